@@ -127,6 +127,15 @@ def generate(src):
     ex.run(fdef, st, on_ret, on_exc)
     src.note_paths('::SimpleRetryMiddleware.on_error', sum(exits.values()))
     s0 = State(); s0.pc = list(st.pc); reach(s0, "on_error/reach@precondition")
+    # ---- __init__: the three options on_error reads back from self are stored exactly as given (0 / False included)
+    init = src.func(REL, 'SimpleRetryMiddleware.__init__'); ia = Int('mw_addr'); si = State(); si.env = {'self': PyObj(ia)}; ip = {}
+    for a_ in init.args.args[1:]: ip[a_.arg] = fresh(a_.arg); si.env[a_.arg] = ip[a_.arg]
+    exi = Exec({'super': lambda ex_, st_, e, r, a, kw, k, K: k(st_, fresh('super')), 'logger.*': noop}); exi.no_pure_fallback = True
+    def i_ret(s, v):
+        for f in ('default_retry_count', 'default_retry_label', 'no_result_on_retry'):
+            oblige(s, f"SimpleRetryMiddleware.__init__/post: self.{f} is the `{f}` the middleware was built with (also 0 / False)  [C11]", s.heap.field(f)[ia] == ip[f] if f in ip else BoolVal(False))
+        reach(s, "SimpleRetryMiddleware.__init__/reach@return")
+    exi.run(init, si, i_ret, lambda s, x: None)
     # ---- attempt lemma (pure arithmetic over the contract): attempt k carries _retries = k-1 ; attempt k+1 exists iff attempt k failed, enabled, k < m
     k_, m_, n_ = Ints('k m n_exec'); L = State(); carried = k_ - 1
     L.pc = [k_ >= 1]
